@@ -70,3 +70,27 @@ Theorem C01i_roundtrip_unknown_shipped : forall inflate tid fs bs,
   exists f0, forall f, (f0 <= f)%nat -> decode_unknown shipped inflate f [] bs = DOk (norm shipped (VObj tid fs)).
 Proof. intros inflate. apply roundtrip_unknown. exact C01i_pseudo_ok. Qed.
 Print Assumptions C01i_roundtrip_unknown_shipped.
+
+(* the two hand-written codecs are registered in today's universe, so TL/ContainerRT.v applies to it *)
+From MTV Require Import TL.ContainerRT.
+
+Theorem C01i_container_and_gzip_registered :
+  lookup_reg shipped crc_container = Some RContainer /\ lookup_reg shipped crc_gzip = Some RGzip.
+Proof. split; vm_compute; reflexivity. Qed.
+Print Assumptions C01i_container_and_gzip_registered.
+
+Theorem C01i_container_roundtrip_shipped : forall inflate items bs,
+  forallb item_ok items = true -> N.of_nat (length items) < two32 / 2 -> enc shipped (VContainer items) = Ok bs ->
+  exists f0, forall f, (f0 <= f)%nat -> decode_unknown shipped inflate f [] bs = DOk (VContainer items).
+Proof. intros inflate. apply container_roundtrip_unknown. exact (proj1 C01i_container_and_gzip_registered). Qed.
+Print Assumptions C01i_container_roundtrip_shipped.
+
+Theorem C01i_gzip_decodes_shipped : forall inflate v raw payload packed,
+  wt shipped (TIface 0) v = true -> enc shipped v = Ok raw -> inflate payload = Some raw -> put_bytes payload = Some packed ->
+  exists f0, forall f, (f0 <= f)%nat ->
+    decode_unknown shipped inflate f [] (le32 crc_gzip ++ packed) = DOk (VGzip (norm shipped v)).
+Proof.
+  intros inflate. apply gzip_decodes_unknown;
+    [exact C01i_pseudo_ok|exact (proj2 C01i_container_and_gzip_registered)].
+Qed.
+Print Assumptions C01i_gzip_decodes_shipped.
